@@ -507,6 +507,7 @@ impl Gen {
                                 let q: u128 = s.parse().unwrap_or(0);
                                 let off = q + self.rng.below(2) as u128;
                                 self.query(SQuery::Simulation { offer: (od.clone(), off), ask: ask.0.clone(), pool: pool.clone() });
+                                if off == q { self.query(SQuery::Simulation { offer: (od.clone(), q + 1), ask: ask.0.clone(), pool: pool.clone() }); }
                                 if self.rng.chance(1, 2) {
                                     self.tx(&u, SMsg::PmSwap { ask: ask.0.clone(), belief: None, max_slip: Some(DEC / 2), receiver: None, pool: pool.clone() }, vec![(od, off)]);
                                 }
